@@ -196,6 +196,76 @@ def gen_case(rng):
     return ops
 
 
+def gen_multi(rng):
+    """several rules of one resource that can take over each other's statistics, reloaded with EVERY rule changed: each new
+    controller must take over the statistics of a different old one (or none), never two of them the same object (seed C06-d)"""
+    ops = ["clock"]
+    counter = [0]
+    fam = rng.choice(["flow", "hs", "br"])
+    sep = ":" if fam == "flow" else ";"
+    eid = [0]
+    n = rng.choice([2, 2, 3])
+    if fam == "flow":
+        ivl = rng.choice([1500, 3000, 700, 0, 2000])
+        rules = [("abc"[j], "%d:%d" % (rng.randint(2, 5), ivl)) for j in range(n)]
+    elif fam == "hs":
+        d = rng.choice([1, 2])
+        cap = rng.choice([0, 0, 1])
+        m = rng.choice(["q", "q", "c"])
+        rules = [("hgf"[j], "%s;r;%d;%s;%d;0;0;%d;%d;" % (m, [0, 0, 1][j], ["", "k", ""][j], rng.randint(1, 3), d if m == "q" else 0, cap)) for j in range(n)]
+    else:
+        st = rng.choice(["c", "r"])
+        ivl = rng.choice([1000, 2000])
+        rules = [("bde"[j], "%s;%d;1;%d;%d;50;%s" % (st, rng.choice([300, 1500]), ivl, 1, (str(j + 1) if st == "c" else ["1/2", "1", "1/4"][j]))) for j in range(n)]
+
+    def load():
+        specs = []
+        for rid, body in rules:
+            counter[0] += 1
+            specs.append("%s%d%s%s" % (rid, counter[0], sep, body))
+        if rng.random() < 0.5:
+            specs.reverse()
+        ops.append("%s.load res=r rules=%s" % (fam, ",".join(specs)))
+
+    def change_all():
+        for j, (rid, body) in enumerate(rules):
+            p = body.split(sep)
+            if fam == "flow":
+                p[0] = str(int(p[0]) + rng.choice([1, 2]))
+            elif fam == "hs":
+                p[4] = str(int(p[4]) + rng.choice([1, 2]))
+            else:
+                p[1] = str(int(p[1]) + rng.choice([1, 200]))          # retry timeout: state-free parameter
+            rules[j] = (rid, sep.join(p))
+
+    load()
+    steps = rng.randint(10, 30)
+    reload_at = sorted(rng.sample(range(2, steps), rng.choice([1, 2])))
+    open_ = []
+    for k in range(steps):
+        if k in reload_at:
+            change_all()
+            load()
+        ops.append("adv ms=%d" % rng.choice([0, 0, 1, 50, 100, 300, 499, 500, 700, 1000]))
+        eid[0] += 1
+        extra = ""
+        if fam == "hs":
+            v = rng.choice(["a", "a", "b"])
+            extra = " args=%s,%s atts=k:%s" % (v, v, v) if rng.random() < 0.6 else " args=a,c atts=k:b"
+        ops.append("build e=%d res=r batch=1 dir=out%s" % (eid[0], extra))
+        if fam == "br":
+            ops.append("adv ms=%d" % rng.choice([1, 60]))
+            ops.append("exit e=%d err=%d" % (eid[0], rng.choice([0, 1, 1])))
+            ops.append("br.state res=r")
+        elif fam == "hs" and "c;" in rules[0][1][:2]:
+            open_.append(eid[0])
+            if rng.random() < 0.4:
+                ops.append("exit e=%d" % open_.pop(rng.randrange(len(open_))))
+        elif rng.random() < 0.5:
+            ops.append("exit e=%d" % eid[0])
+    return ops
+
+
 def gen(rng, tier):
     n = 500 if tier == "quick" else 25000
-    return [gen_case(rng) for _ in range(n)]
+    return [gen_case(rng) if i % 5 else gen_multi(rng) for i in range(n)]
